@@ -154,6 +154,14 @@ func (ca *CertificateAuthority) Finalize(ctx context.Context, m styp.Certificate
 	if err != nil {
 		return err
 	}
+	// The cached manifest is edited in place below. If the edit does not become durable, forget it,
+	// so that this authority keeps answering from what storage records.
+	durable := false
+	defer func() {
+		if !durable {
+			ca.Flush()
+		}
+	}()
 	var manifestChanges bool
 	if mut.primaryRootVersion != nil && manifest.PrimaryRootKeyVersionName != *mut.primaryRootVersion {
 		manifestChanges = true
@@ -193,6 +201,7 @@ func (ca *CertificateAuthority) Finalize(ctx context.Context, m styp.Certificate
 			return err
 		}
 	}
+	durable = true
 	if len(names) > 0 && !output.AllowOverwrite(ctx) && !output.AllowRecoverableError(ctx) {
 		return fmt.Errorf("--overwrite=false disallowed overwriting objects %v", names)
 	}
